@@ -1,10 +1,167 @@
-import Martian.Util
-/-! STUB — property C18 is not built yet. -/
+import Martian.Model.Shape
 namespace Martian.Drv.C18
-open Martian
+open Martian Martian.Go Martian.Shape
 
-abbrev St := Unit
-def init : St := ()
-def step (s : St) (_toks : List String) : St × String := (s, "bad-op")
+structure St where
+  l : Listener := {}
+  conns : List (String × Conn) := []
+
+def init : St := {}
+
+def getConn (s : St) (id : String) : Option Conn := (s.conns.find? (·.1 = id)).map (·.2)
+def putConn (s : St) (id : String) (c : Conn) : St :=
+  if (s.conns.any (·.1 = id)) then { s with conns := s.conns.map fun p => if p.1 = id then (id, c) else p }
+  else { s with conns := s.conns ++ [(id, c)] }
+
+def regexName : Nat → String
+  | 0 => "a" | 1 => "b" | 2 => "c" | _ => "?"
+
+def parseRegex : String → Option RegexId
+  | "a" => some (.valid 0) | "b" => some (.valid 1) | "c" => some (.valid 2)
+  | "empty" => some .empty | "bad" => some .bad | _ => none
+
+def parseUrl : String → Option (Option Nat)
+  | "a" => some (some 0) | "b" => some (some 1) | "c" => some (some 2) | "n" => some none | _ => none
+
+def items (s : String) : List String := if s = "-" then [] else s.splitOn ","
+
+def ints (s : String) (n : Nat) : Option (List Int) :=
+  let ps := s.splitOn "/"
+  if ps.length = n then ps.mapM String.toInt? else none
+
+def parseThrottleTok (s : String) : Option (Option RawThrottle) :=
+  if s = "nil" then some none else
+  match s.splitOn "/" with
+  | [h, bw] => match unhex h, bw.toInt? with
+    | some b, some w => some (some ⟨b, w⟩)
+    | _, _ => none
+  | _ => none
+
+def parseHaltTok (s : String) : Option (Option RawHalt) :=
+  if s = "nil" then some none else
+  match ints s 3 with
+  | some [a, b, c] => some (some ⟨a, b, c⟩)
+  | _ => none
+
+def parseCloseTok (s : String) : Option (Option RawClose) :=
+  if s = "nil" then some none else
+  match ints s 2 with
+  | some [a, b] => some (some ⟨a, b⟩)
+  | _ => none
+
+def parseShapeTok (s : String) : Option (Option RawShape) :=
+  if s = "null" then some none else
+  match s.splitOn ":" with
+  | ["s", r, mb, t, h, c] =>
+    match parseRegex r, mb.toInt?, (items t).mapM parseThrottleTok, (items h).mapM parseHaltTok,
+          (items c).mapM parseCloseTok with
+    | some r, some mb, some ts, some hs, some cs => some (some ⟨r, mb, ts, hs, cs⟩)
+    | _, _, _, _, _ => none
+  | _ => none
+
+def parseDefaults (s : String) : Option (Option RawDefaults) :=
+  if s = "d:none" then some none else
+  match s.splitOn ":" with
+  | ["d", a, b, c] => match a.toInt?, b.toInt?, c.toInt? with
+    | some a, some b, some c => some (some ⟨a, b, c⟩)
+    | _, _, _ => none
+  | _ => none
+
+def errName : Err → String
+  | .defaults => "defaults" | .nilshape => "nilshape" | .noregex => "noregex" | .badregex => "badregex"
+  | .negmax => "negmax" | .nilthrottle => "nilthrottle" | .badbw => "badbw" | .badbytes => "badbytes"
+  | .nilhalt => "nilhalt" | .badhalt => "badhalt" | .zerohalt => "zerohalt" | .nilclose => "nilclose"
+  | .badclose => "badclose" | .zeroclose => "zeroclose" | .overlap => "overlap"
+
+def showReject (r : Reject) : String :=
+  "rejected " ++ errName r.err ++
+    (match r.shape with | some s => s!" s={s}" | none => "") ++
+    (match r.item with | some i => s!" i={i}" | none => "")
+
+def showNext : Option (Nat × Int) → String
+  | some (i, b) => s!"{i}@{b}"
+  | none => "none"
+
+def showEv : Ev → String
+  | .sleep d o => s!"s{d}@{o}"
+  | .setCap b o => s!"b{b}@{o}"
+  | .forceClose o => s!"c@{o}"
+
+/-- counts of the halts, then of the close actions, in configuration order. -/
+def showCounts (l : Listener) (r : Option Nat) : String :=
+  match r.bind (fun r => mapGet r l.shapes) with
+  | none => "-"
+  | some s =>
+    let hc := s.actions.filter fun a => match a.kind with | .bw _ => false | _ => true
+    let sorted := stableSort (fun a => (a.orig : Int)) hc
+    if sorted.isEmpty then "-" else ",".intercalate (sorted.map fun a => toString a.count)
+
+def capOf (c : Conn) : String :=
+  match c.ctx.fast with
+  | some x => toString x
+  | none => match c.ctx.regex.bind (fun r => mapGet r c.locals) with
+    | some x => toString x
+    | none => "-"
+
+/-- The driver's bucket adversary: alternating tiny and large remaining capacities. -/
+def drvCaps (r : Nat) : Nat := if r % 3 = 0 then 0 else if r % 3 = 1 then 6 else 1000
+
+def allAscii (c : RawConfig) : Bool :=
+  c.shapes.all fun s => match s with
+    | none => true
+    | some s => s.throttles.all fun t => match t with
+      | none => true
+      | some t => isAscii t.bytes
+
+def step (s : St) (toks : List String) : St × String :=
+  match toks with
+  | "config" :: d :: shapes =>
+    match parseDefaults d, shapes.mapM parseShapeTok with
+    | some d, some shs =>
+      let cfg : RawConfig := ⟨d, shs⟩
+      if !allAscii cfg then (s, "out-of-model") else
+      match configureSt s.l cfg with
+      | (l', none) => ({ s with l := l' }, "accepted")
+      | (_, some e) => (s, showReject e)
+    | _, _ => (s, "bad-op")
+  | ["conn", id] =>
+    if (getConn s id).isSome then (s, "bad-op") else
+    let (l', c) := accept s.l
+    let keys := c.locals.map fun p => s!"{regexName p.1}:{p.2}"
+    (putConn { s with l := l' } id c, "conn " ++ (if keys.isEmpty then "-" else ",".intercalate keys))
+  | ["ctx", id, u, rs, hl, f] =>
+    match getConn s id, parseUrl u, rs.toInt?, hl.toInt?, (if f = "-" then some none else f.toInt?.map some) with
+    | some c, some u, some rs, some hl, some f =>
+      if c.closed ∨ hl < 0 ∨ rs < -1 then (s, "bad-op") else
+      let c' := setContext s.l c u rs hl f
+      let out := if c'.ctx.shaping then
+          let thr := match c'.ctx.regex.bind (fun r => validShape s.l c r) with
+            | some sh => match currentThrottle sh.throttles rs with
+              | some b => toString b
+              | none => "none"
+            | none => "none"
+          s!"ctx shaping=1 regex={regexName (c'.ctx.regex.getD 9)} next={showNext c'.ctx.next} thr={thr} cap={capOf c'}"
+        else "ctx shaping=0"
+      (putConn s id c', out)
+    | _, _, _, _, _ => (s, "bad-op")
+  | ["write", id, hx] =>
+    match getConn s id, unhex hx with
+    | some c, some b =>
+      if c.closed then (s, "bad-op") else
+      let (l', c', res) := connWrite drvCaps s.l c b
+      let st := match res.status with
+        | .ok => "ok" | .closed => "close" | .panic => "panic" | .fuel => "fuel"
+      -- the proxy closes a connection whose write was cut (`handle` returns `errClose`)
+      let c' := if res.status = .closed then { c' with closed := true } else c'
+      let s' := putConn { s with l := l' } id c'
+      let ev := if res.evs.isEmpty then "-" else ",".intercalate (res.evs.map showEv)
+      let cap := if c'.ctx.shaping then capOf c' else "-"
+      (s', s!"w n={res.delivered.length} st={st} d={hex res.delivered} off={c'.ctx.off} hw={c'.ctx.headerWritten} next={showNext c'.ctx.next} shaping={if c'.ctx.shaping then 1 else 0} cap={cap} ev={ev} counts={showCounts l' c'.ctx.regex}")
+    | _, _ => (s, "bad-op")
+  | ["close", id] =>
+    match getConn s id with
+    | some c => if c.closed then (s, "bad-op") else (putConn s id { c with closed := true }, "closed")
+    | none => (s, "bad-op")
+  | _ => (s, "bad-op")
 
 end Martian.Drv.C18
